@@ -391,3 +391,122 @@ package motion
 //@   requires d != nil && 0.0 <= backAverage && backAverage < 65536.0
 //@   modifies d.tempThresh
 //@   ensures [C15] d.tempThresh == floor(clampSpec(backAverage, d.tempThreshMin, d.tempThreshMax))
+
+// Frames handled by a detector all have the camera's resolution; every pixel row
+// is a separate array owned by its frame (ghost owner/rowof, fixed at allocation),
+// which is what makes frames of different rings disjoint.
+//@ ghost field motionDetector.gResX int
+//@ ghost field motionDetector.gResY int
+//@
+//@ pred frameDims(f *cptvframe.Frame, rx int, ry int) :=
+//@      f != nil && len(f.Pix) == ry && arr(f.Pix) != 0
+//@   && (forall y int :: 0 <= y && y < ry ==> len(f.Pix[y]) == rx && owner(arr(f.Pix[y])) == ref(f) && rowof(arr(f.Pix[y])) == y)
+//@
+//@ pred (d *motionDetector) geom() :=
+//@   0 <= d.start && d.start <= d.rowStop && d.rowStop <= d.gResY && d.start <= d.columnStop && d.columnStop <= d.gResX
+//@
+//@ pred (d *motionDetector) interior(y int, x int) := d.start <= y && y < d.rowStop && d.start <= x && x < d.columnStop
+
+//@ func (d *motionDetector) absDiffFrames
+//@   requires d != nil && d.geom() && frameDims(a, d.gResX, d.gResY) && frameDims(b, d.gResX, d.gResY) && frameDims(out, d.gResX, d.gResY) && out != a && out != b
+//@   modifies pix(out)
+//@   loop 1 invariant d.start <= y && y <= d.rowStop
+//@   loop 1 invariant [C07,C08] forall yy int, xx int :: d.start <= yy && yy < y && d.start <= xx && xx < d.columnStop ==> out.Pix[yy][xx] == dabs(cl(a.Pix[yy][xx], d.tempThresh), cl(b.Pix[yy][xx], d.tempThresh))
+//@   loop 1 invariant [C07,C08] forall yy int, xx int :: 0 <= yy && yy < d.gResY && 0 <= xx && xx < d.gResX && !(d.start <= yy && yy < y && d.start <= xx && xx < d.columnStop) ==> out.Pix[yy][xx] == old(out.Pix[yy][xx])
+//@   loop 2 invariant d.start <= y && y < d.rowStop && d.start <= x && x <= d.columnStop
+//@   loop 2 invariant [C07,C08] forall yy int, xx int :: d.start <= yy && yy < y && d.start <= xx && xx < d.columnStop ==> out.Pix[yy][xx] == dabs(cl(a.Pix[yy][xx], d.tempThresh), cl(b.Pix[yy][xx], d.tempThresh))
+//@   loop 2 invariant [C07,C08] forall xx int :: d.start <= xx && xx < x ==> out.Pix[y][xx] == dabs(cl(a.Pix[y][xx], d.tempThresh), cl(b.Pix[y][xx], d.tempThresh))
+//@   loop 2 invariant [C07,C08] forall yy int, xx int :: 0 <= yy && yy < d.gResY && 0 <= xx && xx < d.gResX && !(d.start <= yy && yy < y && d.start <= xx && xx < d.columnStop) && !(yy == y && d.start <= xx && xx < x) ==> out.Pix[yy][xx] == old(out.Pix[yy][xx])
+//@   ensures [C07,C08] forall yy int, xx int :: d.interior(yy, xx) ==> out.Pix[yy][xx] == dabs(cl(a.Pix[yy][xx], d.tempThresh), cl(b.Pix[yy][xx], d.tempThresh))
+//@   ensures [C08] forall yy int, xx int :: 0 <= yy && yy < d.gResY && 0 <= xx && xx < d.gResX && !d.interior(yy, xx) ==> out.Pix[yy][xx] == old(out.Pix[yy][xx])
+//@   ensures result == out
+
+//@ func (d *motionDetector) warmerDiffFrames
+//@   requires d != nil && d.geom() && frameDims(a, d.gResX, d.gResY) && frameDims(b, d.gResX, d.gResY) && frameDims(out, d.gResX, d.gResY) && out != a && out != b
+//@   modifies pix(out)
+//@   loop 1 invariant d.start <= y && y <= d.rowStop
+//@   loop 1 invariant [C07,C08] forall yy int, xx int :: d.start <= yy && yy < y && d.start <= xx && xx < d.columnStop ==> out.Pix[yy][xx] == dwarm(cl(a.Pix[yy][xx], d.tempThresh), cl(b.Pix[yy][xx], d.tempThresh))
+//@   loop 1 invariant [C07,C08] forall yy int, xx int :: 0 <= yy && yy < d.gResY && 0 <= xx && xx < d.gResX && !(d.start <= yy && yy < y && d.start <= xx && xx < d.columnStop) ==> out.Pix[yy][xx] == old(out.Pix[yy][xx])
+//@   loop 2 invariant d.start <= y && y < d.rowStop && d.start <= x && x <= d.columnStop
+//@   loop 2 invariant [C07,C08] forall yy int, xx int :: d.start <= yy && yy < y && d.start <= xx && xx < d.columnStop ==> out.Pix[yy][xx] == dwarm(cl(a.Pix[yy][xx], d.tempThresh), cl(b.Pix[yy][xx], d.tempThresh))
+//@   loop 2 invariant [C07,C08] forall xx int :: d.start <= xx && xx < x ==> out.Pix[y][xx] == dwarm(cl(a.Pix[y][xx], d.tempThresh), cl(b.Pix[y][xx], d.tempThresh))
+//@   loop 2 invariant [C07,C08] forall yy int, xx int :: 0 <= yy && yy < d.gResY && 0 <= xx && xx < d.gResX && !(d.start <= yy && yy < y && d.start <= xx && xx < d.columnStop) && !(yy == y && d.start <= xx && xx < x) ==> out.Pix[yy][xx] == old(out.Pix[yy][xx])
+//@   ensures [C07,C08] forall yy int, xx int :: d.interior(yy, xx) ==> out.Pix[yy][xx] == dwarm(cl(a.Pix[yy][xx], d.tempThresh), cl(b.Pix[yy][xx], d.tempThresh))
+//@   ensures [C08] forall yy int, xx int :: 0 <= yy && yy < d.gResY && 0 <= xx && xx < d.gResX && !d.interior(yy, xx) ==> out.Pix[yy][xx] == old(out.Pix[yy][xx])
+//@   ensures result == out
+
+//@ func (d *debugTracker) update
+//@   mode trusted
+//@ func (d *debugTracker) reset
+//@   mode trusted
+//@ func (d *debugTracker) string
+//@   mode trusted
+
+// Counting: hit(y,x) = the pixel exceeds delta-thresh in f1 (and in f2 when one is
+// given); rowcnt(y,x) = hits in row y, columns [start,x); cnt(y) = hits in rows [start,y).
+//@ pure func (d *motionDetector) hit(f1 *cptvframe.Frame, f2 *cptvframe.Frame, y int, x int) bool := f1.Pix[y][x] > d.deltaThresh && (f2 == nil || f2.Pix[y][x] > d.deltaThresh)
+//@ rec func (d *motionDetector) rowcnt(f1 *cptvframe.Frame, f2 *cptvframe.Frame, y int, x int) int := x <= d.start ? 0 : d.rowcnt(f1, f2, y, x - 1) + (d.hit(f1, f2, y, x - 1) ? 1 : 0)
+//@ rec func (d *motionDetector) cnt(f1 *cptvframe.Frame, f2 *cptvframe.Frame, y int) int := y <= d.start ? 0 : d.cnt(f1, f2, y - 1) + d.rowcnt(f1, f2, y - 1, d.columnStop)
+
+//@ func (d *motionDetector) CountPixels
+//@   requires d != nil && d.geom() && frameDims(f1, d.gResX, d.gResY)
+//@   loop 1 invariant d.start <= y && y <= d.rowStop
+//@   loop 1 invariant [C07,C08,C09] deltaCount == d.cnt(f1, nil, y)
+//@   loop 2 invariant d.start <= y && y < d.rowStop && d.start <= x && x <= d.columnStop
+//@   loop 2 invariant [C07,C08,C09] deltaCount == d.cnt(f1, nil, y) + d.rowcnt(f1, nil, y, x)
+//@   ensures [C07,C08,C09] deltas == d.cnt(f1, nil, d.rowStop)
+
+//@ func (d *motionDetector) CountPixelsTwoCompare
+//@   requires d != nil && d.geom() && frameDims(f1, d.gResX, d.gResY) && frameDims(f2, d.gResX, d.gResY)
+//@   loop 1 invariant d.start <= y && y <= d.rowStop
+//@   loop 1 invariant [C07,C08,C09] deltaCount == d.cnt(f1, f2, y)
+//@   loop 2 invariant d.start <= y && y < d.rowStop && d.start <= x && x <= d.columnStop
+//@   loop 2 invariant [C07,C08,C09] deltaCount == d.cnt(f1, f2, y) + d.rowcnt(f1, f2, y, x)
+//@   ensures [C07,C08,C09] deltas == d.cnt(f1, f2, d.rowStop)
+
+//@ func (d *motionDetector) hasMotion
+//@   requires d != nil && d.geom() && frameDims(f1, d.gResX, d.gResY) && (!d.useOneDiff ==> frameDims(f2, d.gResX, d.gResY))
+//@   ensures [C07,C09] result1 == d.cnt(f1, d.useOneDiff ? nil : f2, d.rowStop) && result0 == (result1 >= d.countThresh)
+
+//@ func (d *motionDetector) setFloor
+//@   requires d != nil && frameDims(f, d.gResX, d.gResY) && frameDims(out, d.gResX, d.gResY)
+//@   modifies pix(out), out.Status
+//@   ensures [C07] result == out && (forall y int, x int :: 0 <= y && y < d.gResY && 0 <= x && x < d.gResX ==> out.Pix[y][x] == f.Pix[y][x])
+//@   ensures [C09] out.Status.TimeOn == f.Status.TimeOn && out.Status.LastFFCTime == f.Status.LastFFCTime
+
+// Detector state. Ghost epoch = sequence number (in the floored-frame ring) of the
+// latest frame that pixelsChanged treated as FFC-affected; 0 after Reset.
+//@ ghost field motionDetector.epoch int
+//@
+//@ pure func ffcAffected(f *cptvframe.Frame) bool := f.Status.TimeOn - f.Status.LastFFCTime < 10000000000
+//@
+//@ pred (d *motionDetector) rings() :=
+//@      d.flooredFrames.inv() && d.diffFrames.inv() && d.diffFrames.size == 2
+//@   && (forall i int :: 0 <= i && i < d.flooredFrames.size ==> frameDims(d.flooredFrames.frames[i], d.gResX, d.gResY))
+//@   && (forall i int :: 0 <= i && i < 2 ==> frameDims(d.diffFrames.frames[i], d.gResX, d.gResY))
+//@   && (forall i int, j int :: 0 <= i && i < d.flooredFrames.size && 0 <= j && j < 2 ==> d.flooredFrames.frames[i] != d.diffFrames.frames[j])
+//@
+//@ pred (d *motionDetector) notMine(f *cptvframe.Frame) :=
+//@      (forall i int :: 0 <= i && i < d.flooredFrames.size ==> d.flooredFrames.frames[i] != f)
+//@   && (forall j int :: 0 <= j && j < 2 ==> d.diffFrames.frames[j] != f)
+//@
+//@ pred (d *motionDetector) DInv() := d.geom() && d.rings() && (d.debug != nil ==> d.framesHz != 0) && d.flooredFrames.mark >= d.epoch
+//@
+//@ pure func (d *motionDetector) diffspec(a int, b int) int := d.warmerOnly ? dwarm(cl(a, d.tempThresh), cl(b, d.tempThresh)) : dabs(cl(a, d.tempThresh), cl(b, d.tempThresh))
+
+//@ func (d *motionDetector) pixelsChanged
+//@   requires d != nil && d.DInv() && frameDims(frame, d.gResX, d.gResY) && d.notMine(frame)
+//@   modifies d.firstDiff, d.epoch
+//@   modifies d.flooredFrames.currentIndex, d.flooredFrames.bufferFull, d.flooredFrames.oldest, d.flooredFrames.base, d.flooredFrames.mark
+//@   modifies d.diffFrames.currentIndex, d.diffFrames.bufferFull, d.diffFrames.oldest, d.diffFrames.base
+//@   modifies pix(d.flooredFrames.frames[d.flooredFrames.currentIndex]), d.flooredFrames.frames[d.flooredFrames.currentIndex].Status, pix(d.diffFrames.frames[d.diffFrames.currentIndex])
+//@   ghost_exit d.epoch = (old(d.firstDiff) && (ffcAffected(frame) || prevFFC)) ? old(d.flooredFrames.n()) : old(d.epoch)
+//@   ensures [C07,C08,C09,C15] d.DInv()
+//@   ensures [C07,C09] d.flooredFrames.n() == old(d.flooredFrames.n()) + 1 && d.diffFrames.n() == old(d.diffFrames.n()) + 1
+//@   ensures [C09] d.flooredFrames.mark == ((old(d.firstDiff) && (ffcAffected(frame) || prevFFC)) ? old(d.flooredFrames.n()) : old(d.flooredFrames.mark))
+//@   ensures [C09] d.firstDiff == !(old(d.firstDiff) && (ffcAffected(frame) || prevFFC))
+//@   ensures [C09] !old(d.firstDiff) || ffcAffected(frame) || prevFFC ==> result0 == false && result1 == 0
+//@   ensures [C07] old(d.firstDiff) && !ffcAffected(frame) && !prevFFC ==> result1 == d.cnt(old(d.diffFrames.frames[d.diffFrames.currentIndex]), d.useOneDiff ? nil : old(d.diffFrames.frames[1 - d.diffFrames.currentIndex]), d.rowStop) && result0 == (result1 >= d.countThresh)
+//@   ensures [C07] forall y int, x int :: 0 <= y && y < d.gResY && 0 <= x && x < d.gResX ==> old(d.flooredFrames.frames[d.flooredFrames.currentIndex]).Pix[y][x] == frame.Pix[y][x]
+//@   ensures [C07,C08] forall y int, x int :: d.interior(y, x) ==> old(d.diffFrames.frames[d.diffFrames.currentIndex]).Pix[y][x] == d.diffspec(old(d.flooredFrames.frames[d.flooredFrames.currentIndex]).Pix[y][x], old(d.flooredFrames.frames[d.flooredFrames.slot(d.flooredFrames.hs())]).Pix[y][x])
+//@   ensures [C07] d.flooredFrames.size == old(d.flooredFrames.size) && d.tempThresh == old(d.tempThresh)
